@@ -40,10 +40,10 @@ CLAIMED = {
         note="Same trusted base as C02. Partial: see text.",
         technique="Lean 4 proof (potential-function bound, silence of drained states, no-echo invariants) + trace oracle on message counts", ref="§7 C09"),
     "C10": dict(
-        text="Machine-checked proof on the component slice with ghost logs: for a host writer, any N, every schedule, the values each client displays form a subsequence of the values written, in order, ending with the last one once drained. "
-             "Partial for a client writer: ending with the last write is proved for the host and every third client behind the relay; the subsequence chain through the relay is checked by the trace oracle (per-frame value sequences of every peer) on every run.",
-        note="Same trusted base as C02. Partial: see text.",
-        technique="Lean 4 proof (Sublist chain invariant with ghost logs) + trace-projection correspondence + subsequence oracle", ref="§7 C10"),
+        text="Machine-checked proof on the component slice with ghost logs (every value a peer displays after a network apply, every value the application writes): for a host writer and for a client writer (through the host's deferred apply and its relay - only if changed, or always for parent links), any N, every schedule, what each reader has displayed followed by everything still travelling towards it is a subsequence of the values written, in the order written, and once drained every reader displays the last one. The pre-repair token skip is refuted by a kernel-checked witness. "
+             "Tie: as C02 (code-path facts, per-key frame-by-frame correspondence incl. token state); oracle: the value sequence every peer displays, frame by frame, is a subsequence of the writes and ends with the last.",
+        note="Same trusted base as C02.",
+        technique="Lean 4 proof (Sublist chain invariants with ghost logs, host writer and client writer) + trace-projection correspondence + subsequence oracle", ref="§7 C10"),
     "C08": dict(
         text="Machine-checked proof on the crash slice (every deferred closure queued by poll_for_messages as an Except-valued step, application despawns interleaved anywhere in the flush): with the guards the translator reads off the handlers on every run, "
              "every sequence of steps over every world completes (no panic) and a message about a vanished entity leaves the world unchanged; each guard is shown necessary by a kernel-checked witness. "
